@@ -2428,3 +2428,49 @@ theorem conv_all : ∀ m, Conv m
     ⟨conv_eval ih, conv_list ih, conv_apply ih, conv_defs ih, conv_seq ih, conv_tail ih⟩
 
 end Ruschm.Ref
+
+namespace Ruschm.Eval
+open Ref
+
+theorem lookupAux_eq_chainOlderAux (σ : Store) (x : String) (k ρ : Nat) :
+    σ.lookupAux k ρ x = (chainOlderAux σ k ρ).findSome? (frameBinding σ x) := by
+  induction k generalizing ρ with
+  | zero => rfl
+  | succ k ih =>
+    rw [Store.lookupAux, chainOlderAux]
+    cases hf : σ.frames[ρ]? with
+    | none => simp
+    | some f =>
+      simp only [List.findSome?_cons, frameBinding, hf, Option.bind_some]
+      cases hx : f.defs.lookup x with
+      | some v => simp
+      | none =>
+        simp only
+        cases hp : f.parent with
+        | none => simp
+        | some p =>
+          by_cases hlt : p < ρ
+          · simp only [hlt, if_true]; exact ih p
+          · simp [hlt]
+
+theorem chainOlderAux_eq_chainAux {σ : Store} (h : ParentsOlder σ) :
+    ∀ k₁ k₂ ρ, ρ < k₁ → ρ < k₂ → chainOlderAux σ k₁ ρ = chainAux σ k₂ ρ := by
+  intro k₁
+  induction k₁ with
+  | zero => intro k₂ ρ h1; omega
+  | succ k₁ ih =>
+    intro k₂ ρ h1 h2
+    obtain ⟨k₂, rfl⟩ : ∃ m, k₂ = m + 1 := ⟨k₂ - 1, by omega⟩
+    rw [chainOlderAux, chainAux]
+    cases hf : σ.frames[ρ]? with
+    | none => rfl
+    | some f =>
+      simp only
+      cases hp : f.parent with
+      | none => rfl
+      | some p =>
+        have hlt := h ρ f p hf hp
+        simp only [hlt, if_true]
+        rw [ih k₂ p (by omega) (by omega)]
+
+end Ruschm.Eval
